@@ -239,6 +239,20 @@ func checkC12(ctx *Ctx, c *Case, units []*schema.Unit) error {
 		m.F("a", 1, schema.S(schema.Int32))
 		m.F("b", 2, schema.S(schema.String))
 		u2 := universeOf(units, p2.P)
+		// a request that cannot be served stays unserviceable when only proto2 files are asked for
+		for _, param := range []string{"features=nosuch", "features=fast+nosuch", "features=all+nosuch"} {
+			req, err := u2.Request(param, "verif/legacy.proto")
+			if err != nil {
+				return fmt.Errorf("HARNESS: %v", err)
+			}
+			res, err := plug.Run(bin, req, nil)
+			if err != nil || res.ExitCode != 0 {
+				return fmt.Errorf("plugin failed on a proto2-only request with %q: %v exit=%d %s", param, err, res.ExitCode, trunc(res.Stderr, 400))
+			}
+			if res.Resp.Error == nil || res.Resp.GetError() == "" {
+				return fmt.Errorf("plugin accepted unknown feature request %q without an error when only a proto2 file was to be generated", param)
+			}
+		}
 		req, err := u2.Request("", "verif/legacy.proto", "verif/impa.proto")
 		if err != nil {
 			return fmt.Errorf("HARNESS: %v", err)
